@@ -2,6 +2,7 @@ import SfntV.Model.Metrics
 import SfntV.Model.Caret
 import SfntV.Model.Os2
 import SfntV.Model.MetricsWriter
+import SfntV.Model.MetricsQueries
 import SfntV.Spec.Metrics
 
 namespace SfntV.Drive.Metrics
@@ -142,6 +143,37 @@ def showOs2 (o : Os2) : String :=
   s!"ur={natsToString o.unicodeRange} cpr={o.codePageRange} perm={o.permUse} " ++
   s!"nosub={showBool o.permNoSubsetting} bitmap={showBool o.permOnlyBitmap}"
 
+/-- `n` or `n/d` -/
+def parseRat (t : String) : Option Rat :=
+  match t.splitOn "/" with
+  | [n] => do pure ((← n.toInt?) : Rat)
+  | [n, d] => do
+    let dn ← d.toNat?
+    if dn = 0 then none else pure (((← n.toInt?) : Rat) / (dn : Rat))
+  | _ => none
+
+def parseRats (s : String) : Option (List Rat) :=
+  if s.isEmpty then some [] else (s.splitOn ",").mapM parseRat
+
+def parseMat (s : String) : Option Mat :=
+  match parseRats s with
+  | some [a, b, c, d, e, f] => some ⟨a, b, c, d, e, f⟩
+  | _ => none
+
+/-- glyph list `-;l:b:r:t;…` (`-` = nil glyph / empty path), rational coordinates -/
+def parseGlyphsQ (s : String) : Option (List (Option (Rat × Rat × Rat × Rat))) :=
+  if s.isEmpty then some [] else
+  (s.splitOn ";").mapM fun t =>
+    if t == "-" then some none
+    else match (t.splitOn ":").mapM parseRat with
+      | some [l, b, r, u] => some (some (l, b, r, u))
+      | _ => none
+
+def cornersQ (g : Rat × Rat × Rat × Rat) : List (Rat × Rat) :=
+  [(g.1, g.2.1), (g.2.2.1, g.2.1), (g.2.2.1, g.2.2.2), (g.1, g.2.2.2)]
+
+def showRectQ (r : RectQ) : String := s!"{q20 r.llx}:{q20 r.lly}:{q20 r.urx}:{q20 r.ury}"
+
 def prefixes : List String := ["metrics."]
 
 def handle (op : String) (fs : List (String × String)) : String :=
@@ -227,6 +259,50 @@ def handle (op : String) (fs : List (String × String)) : String :=
       let win := winMetricsModel (fontBBoxModel es)
       s!"{avgWidthModel ws},{charIndexModel cr.1},{charIndexModel cr.2},{win.1},{win.2}"
     | _, _, _, _ => "bad-case"
+  else if op == "metrics.qwidths" then
+    match getField fs "kind" with
+    | some "glyf" =>
+      match getNat fs "upem", (getField fs "w").bind parseInts with
+      | some upem, some (some ws) =>
+        "pdf=" ++ intsToString (ws.map fun w => q20 (widthPDFglyf w upem)) ++
+        ";gpdf=" ++ intsToString (ws.map fun w => q20 (glyphWidthPDFglyf w upem))
+      | _, _ => "bad-case"
+    | _ =>
+      match (getField fs "fm").bind parseMat, (getField fs "w").bind parseRats with
+      | some fm, some ws =>
+        "pdf=" ++ intsToString (ws.map fun w => q20 (widthPDFcff w fm)) ++
+        ";gpdf=" ++ intsToString (ws.map fun w => q20 (glyphWidthPDFcff w fm))
+      | _, _ => "bad-case"
+  else if op == "metrics.qbbox" then
+    match (getField fs "fm").bind parseMat, (getField fs "g").bind parseGlyphsQ with
+    | some fm, some gs =>
+      let isCff := getField fs "kind" == some "cff"
+      let pts := gs.map fun g => g.map cornersQ
+      let boxes : List Rect := gs.map fun g =>
+        match g with
+        | none => ⟨0, 0, 0, 0⟩
+        | some q => if isCff then extentQ (cornersQ q) else ⟨q.1.floor, q.2.1.floor, q.2.2.1.floor, q.2.2.2.floor⟩
+      "gb=" ++ ";".intercalate (boxes.map showRect) ++
+      "|gp=" ++ ";".intercalate (pts.map fun p => showRectQ (glyphBBoxPDF fm p)) ++
+      "|fb=" ++ showRect (fontBBoxModel boxes) ++ "|fp=" ++ showRectQ (fontBBoxPDF fm pts)
+    | _, _ => "bad-case"
+  else if op == "metrics.wcffq" then
+    match (getField fs "w").bind parseRats with
+    | some ws =>
+      s!"{showBool (isFixedPitchQ ws)};{avgWidthQ ws};" ++ intsToString (ws.map fun w => wrap16 (truncQ w))
+    | none => "bad-case"
+  else if op == "metrics.wmakehmtx" then
+    match (getField fs "w").bind parseInts, (getField fs "ext").bind parseRects, getInt fs "asc",
+          getInt fs "desc", getInt fs "gap", getBool fs "upright" with
+    | some (some ws), some (some es), some asc, some desc, some gap, some upright =>
+      match encode ⟨some ws, some es, none, asc, desc, gap, 0⟩ 1 0 with
+      | .ok (hhea, hmtx) =>
+        -- with an italic angle the caret fields (bytes 18..21) depend on float trigonometry: masked
+        let h := if upright then hhea else hhea.take 18 ++ [0, 0, 0, 0] ++ hhea.drop 22
+        "ok:" ++ toHex h ++ ":" ++ (match hmtx with | some b => toHex b | none => "-")
+      | .err e => "err:" ++ e
+      | .panic _ => "panic"
+    | _, _, _, _, _, _ => "bad-case"
   else if op == "metrics.os2enc" then
     match parseOs2 fs with
     | some o => "ok:" ++ toHex (encodeOs2 o)
